@@ -621,14 +621,18 @@ def gen_branch_case(r, idx, max_depth=3):
     msg.value) and branches on it without changing storage differently (both end states carry the
     same storage term, the constraint on the stored symbol differs), one or two functions enabled
     by a stored value on a chosen side of the branch, optional bystander functions, depth 2..3."""
-    src = r.choice(["setv_br", "setv_br", "caller_br", "value_br"])
-    cmp_ = r.choice(["gt", "lt", "eq"]) if src != "caller_br" else "eq"
+    src = r.choice(["setv_br", "setv_br", "caller_br", "value_br", "setv_rel"])
+    cmp_ = "eq" if src == "caller_br" else "gt" if src == "setv_rel" else r.choice(["gt", "lt", "eq"])
     K = r.choice([0x1234, 0x99]) if src == "caller_br" else r.randint(1, 40)
     st = {"name": "set", "kind": src, "slot": 0, "k": K, "cmp": cmp_}
-    if src == "value_br":
+    if src in ("value_br", "setv_rel"):
         st["payable"] = True
     if r.random() < 0.3:
         st["late"] = True
+    if src == "setv_rel":
+        # the branch is on msg.value, tied to the stored argument by arg == msg.value before or after it
+        st.pop("late", None)
+        st["rel_first"] = r.random() < 0.5
     if src == "caller_br":
         inside, outside = [0x1234 if K == 0x1234 else 0x99], [0x99 if K == 0x1234 else 0x1234, 0x98]
     else:
